@@ -144,6 +144,15 @@ def search_filter(pid, r, n, stats):
         if pid == "C07" and r.random() < 0.3:
             # tracked values far outside repr's plain range end up in the exit / recovery commands
             evs = c07_extreme_program(r, cfg)
+        if pid in ("C04", "C05") and r.random() < 0.08:
+            # the first region is defined between a retraction and its recovery
+            fw = r.random() < 0.4
+            cfg = dict(cfg, regions=[])
+            evs = [("g", "G28"), ("g", "G1 X5 Y5 Z0.2 F3000"), ("g", "G1 X6 Y5 E1"),
+                   ("g", "G10" if fw else "G1 E0 F1800"),
+                   ("addregion", ("R", "late", 10.0, 10.0, 20.0, 20.0)),
+                   ("g", "G1 X15 Y15"), ("g", "G11" if fw else "G1 E1 F1800"),
+                   ("g", "G1 X30 Y30"), ("g", "G1 X31 Y30 E2"), ("g", "G1 X32 Y30 E3")]
         res, _h = oracle.run_events(cfg, evs)
         v = [x for x in oracle.judge(cfg, evs, res, [pid])]
         stats["evaluations"] += 1
